@@ -9,6 +9,7 @@ package router
 
 import (
 	"hash"
+	"net/netip"
 
 	"github.com/scionproto/scion/pkg/addr"
 	"github.com/scionproto/scion/private/topology"
@@ -22,6 +23,8 @@ type vLink struct {
 	ifID  uint16
 	scope LinkScope
 	up    bool
+	// svcMissing: resolving a service address finds no registered instance
+	svcMissing bool
 	// recorded
 	resolved int
 	resHost  addr.Host
@@ -35,6 +38,9 @@ func (l *vLink) Metrics() *InterfaceMetrics { return nil }
 func (l *vLink) Scope() LinkScope           { return l.scope }
 func (l *vLink) BFDSession() *bfd.Session   { return nil }
 func (l *vLink) Resolve(p *Packet, dst addr.Host, port uint16) error {
+	if l.svcMissing && dst.Type() == addr.HostTypeSVC {
+		return ErrNoSVCBackend
+	}
 	l.resolved++
 	l.resHost = dst
 	l.resPort = port
@@ -92,7 +98,7 @@ func vrLinkType(name string) topology.LinkType {
 // ISD-AS are symbolic.
 func vrSetup() *vRouter {
 	r := &vRouter{}
-	r.internal = &vLink{ifID: 0, scope: Internal, up: true}
+	r.internal = &vLink{ifID: 0, scope: Internal, up: true, svcMissing: verif.NondetBool("svc.missing")}
 	r.ext1 = &vLink{ifID: vrIf1, scope: External, up: verif.NondetBool("up.1")}
 	r.ext2 = &vLink{ifID: vrIf2, scope: External, up: verif.NondetBool("up.2")}
 	r.sibA = &vLink{ifID: 0, scope: Sibling, up: verif.NondetBool("up.sibA")}
@@ -118,6 +124,7 @@ func vrSetup() *vRouter {
 	d.neighborIAs[vrIfSA1] = addr.IA(verif.NondetU64("nb.3"))
 	d.neighborIAs[vrIfSA2] = addr.IA(verif.NondetU64("nb.258"))
 	d.neighborIAs[vrIfSB] = addr.IA(verif.NondetU64("nb.65535"))
+	d.localHost = addr.HostIP(netip.AddrFrom4([4]byte{10, 1, 2, 3}))
 	d.numInterfaces = 6
 	d.ExperimentalSCMPAuthentication = false
 	r.d = d
@@ -162,6 +169,7 @@ func vrClassFromParams() vrClass {
 	case 2:
 		// one-hop: info field + two hop fields, no meta header
 		c.nInf, c.nHop = 1, 2
+		c.seg = [3]int{2, 0, 0}
 		c.infoOff = c.pathOff
 		c.hopOff = c.pathOff + 8
 		c.hdrLen = c.hopOff + 24
@@ -191,9 +199,12 @@ func vrPacket(r *vRouter, c vrClass) (*Packet, []byte) {
 		raw[m+2] = byte(c.seg[0]&15)<<4 | byte(c.seg[1]>>2)
 		raw[m+3] = byte(c.seg[1]&3)<<6 | byte(c.seg[2])
 	}
-	if verif.Param("rsv0") == 1 && c.pathType != 2 {
+	if verif.Param("rsv0") == 1 {
 		// reserved bits as a conforming sender sets them (zero)
-		raw[c.metaOff+1] &= 0x03
+		raw[10], raw[11] = 0, 0
+		if c.pathType != 2 {
+			raw[c.metaOff+1] &= 0x03
+		}
 		for i := 0; i < c.nInf; i++ {
 			raw[c.infoOff+8*i] &= 0x03
 			raw[c.infoOff+8*i+1] = 0
@@ -203,7 +214,7 @@ func vrPacket(r *vRouter, c vrClass) (*Packet, []byte) {
 		}
 	}
 	buf := new([bufSize]byte)
-	const headroom = 64
+	headroom := verif.Param("headroom")
 	copy(buf[headroom:], raw)
 	pkt := &Packet{buffer: buf}
 	pkt.RawPacket = buf[headroom : headroom+c.total]
